@@ -18,6 +18,8 @@ class FakeSocket:
         self.inbox = collections.deque()
         self.closed = False
         self.sent = []
+        self.peer = None
+        self.pending_err = False
 
     def setsockopt(self, *a):
         self.opts.append(a)
@@ -44,16 +46,53 @@ class FakeSocket:
         self.net.log.append(rec)
         if self.net.hook is not None:
             self.net.hook(self, bytes(data), tuple(addr))
+        if self.peer is not None and tuple(addr)[1] in self.net.dead:
+            self.pending_err = True      # ICMP port unreachable comes back to a connected socket
         return len(data)
 
     def recvfrom(self, n):
+        self._raise_pending()
         if not self.inbox:
             raise BlockingIOError
         data, addr = self.inbox.popleft()
         return bytes(data[:n]), addr
 
+    # the connected flavour of the same calls (a code base may migrate to it): Linux semantics - only
+    # datagrams from the peer are received, and an ICMP error caused by an earlier send is reported
+    # by the next call on the socket
+    def connect(self, addr):
+        self.peer = tuple(addr)
+
+    def getpeername(self):
+        if self.peer is None:
+            raise OSError(107, "Transport endpoint is not connected")
+        return self.peer
+
+    def _raise_pending(self):
+        if self.pending_err:
+            self.pending_err = False
+            raise ConnectionRefusedError(111, "Connection refused")
+
+    def send(self, data, flags=0):
+        if self.peer is None:
+            raise OSError(89, "Destination address required")
+        self._raise_pending()
+        return self.sendto(data, self.peer)
+
+    def recv(self, n, flags=0):
+        return self.recvfrom(n)[0]
+
+    def settimeout(self, t):
+        self.timeout = t
+
+    def gettimeout(self):
+        return getattr(self, "timeout", None)
+
     # driver side
     def feed(self, data, addr=("127.0.0.1", 40000)):
+        if self.peer is not None and tuple(addr) != self.peer and self.peer[0] not in ("0.0.0.0", ""):
+            if tuple(addr)[1] != self.peer[1]:
+                return                   # the kernel does not deliver foreign datagrams to a connected socket
         self.inbox.append((bytes(data), tuple(addr)))
 
 
@@ -68,6 +107,12 @@ class Net:
         self.log = []          # (socket, data, destination) in send order
         self.by_port = {}
         self.sockets = []
+        self.dead = set()      # destination ports nobody listens on (a peer that died): see FakeSocket.sendto
+
+    def __getattr__(self, name):
+        # constants and exception classes of the real module (socket.timeout, MSG_DONTWAIT, ...)
+        import socket as _real
+        return getattr(_real, name)
 
     def socket(self, family, typ):
         s = FakeSocket(self, family, typ)
